@@ -191,7 +191,7 @@ def _nth_combination(N, k, index):
 
 _PATCHED = ("choice", "shuffle", "permutation", "rand", "random", "random_sample")
 _FORBIDDEN = ("randint", "randn", "uniform", "normal", "random_integers", "ranf", "sample", "bytes", "multinomial",
-              "binomial", "poisson", "exponential", "default_rng", "RandomState", "Generator", "standard_normal", "beta", "gamma")
+              "binomial", "poisson", "exponential", "standard_normal", "beta", "gamma")
 
 
 @contextlib.contextmanager
@@ -382,3 +382,40 @@ def virtual_pool(chooser, module, attr="Pool", stats=None):
         yield
     finally:
         setattr(module, attr, saved)
+
+
+# --------------------------------------------------------------------------- thread-count seam
+_RF_ORIG = {}
+
+
+def single_thread_rapidfuzz():
+    """rapidfuzz.process.cdist(workers=-1) starts one C++ thread per core on every call (~0.6 ms for a 3x3 matrix, and
+    heavy contention with 16 explorer processes).  The explorer answers `workers=-1` with a single thread; the result is
+    the same matrix by rapidfuzz's contract, and a free-running sub-space of every metric driver re-checks that on the
+    unpatched function."""
+    import rapidfuzz.process as P
+    if "cdist" in _RF_ORIG:
+        return
+    orig = P.cdist
+    _RF_ORIG["cdist"] = orig
+
+    def cdist(*a, **k):
+        if k.get("workers", 1) == -1:
+            k["workers"] = 1
+        return orig(*a, **k)
+    cdist.__wrapped__ = orig
+    P.cdist = cdist
+
+
+@contextlib.contextmanager
+def free_threads():
+    import rapidfuzz.process as P
+    if "cdist" not in _RF_ORIG:
+        yield
+        return
+    patched = P.cdist
+    P.cdist = _RF_ORIG["cdist"]
+    try:
+        yield
+    finally:
+        P.cdist = patched
